@@ -226,16 +226,54 @@ func c30(p *an.Prog, r *an.R, tier string) {
 					r.Bad("C30.R2", key+"/pushes-an-item-variable", c.Pos(), "heap.Push is called with something that is not an item variable")
 					continue
 				}
-				ok := g.GuardedBy(l, func(cond ast.Expr, truth bool) bool {
-					isT, onTrue := idxCond(cond, item)
-					return isT && onTrue != truth
-				}, nil)
-				r.Check(ok, "C30.R2", key+"/guarded-by-heapIdx<0", c.Pos(), "only items known to be off the heap are pushed", "heap.Push can run for an item that is already on the heap: the repository is yielded twice per enqueue")
+				offHeapAt := func(gg *an.G, ll an.Loc, it types.Object) bool {
+					return gg.GuardedBy(ll, func(cond ast.Expr, truth bool) bool {
+						isT, onTrue := idxCond(cond, it)
+						return isT && onTrue != truth
+					}, nil)
+				}
+				allowedAt := func(gg *an.G, ll an.Loc) bool {
+					return allow != nil && gg.GuardedBy(ll, func(cond ast.Expr, truth bool) bool {
+						c2, ok := ast.Unparen(cond).(*ast.CallExpr)
+						return ok && an.Callee(info, c2) == allow && truth
+					}, nil)
+				}
+				ok := offHeapAt(g, l, item)
+				okAllow := allowedAt(g, l)
+				// a helper that pushes its item parameter: the obligations move to every caller of the helper
+				if !ok || !okAllow {
+					pi := -1
+					for k := 0; k < sig.Params().Len(); k++ {
+						if types.Object(sig.Params().At(k)) == item {
+							pi = k
+						}
+					}
+					if pi >= 0 {
+						callers, okAll, allowAll := 0, true, true
+						for j := range fns {
+							fj := &fns[j]
+							gj := graph(fj)
+							for _, lj := range gj.Locs(func(ast.Node) bool { return true }) {
+								for _, cc := range an.CallsTo(info, gj.Node(lj), false, fi.fn) {
+									callers++
+									argItem := itemOfArg(cc.Args[pi])
+									if argItem == nil || !offHeapAt(gj, lj, argItem) {
+										okAll = false
+									}
+									if !allowedAt(gj, lj) {
+										allowAll = false
+									}
+								}
+							}
+						}
+						if callers > 0 {
+							ok = ok || okAll
+							okAllow = okAllow || allowAll
+						}
+					}
+				}
+				r.Check(ok, "C30.R2", key+"/guarded-by-heapIdx<0", c.Pos(), "only items known to be off the heap are pushed (here or at every caller of this helper)", "heap.Push can run for an item that is already on the heap: the repository is yielded twice per enqueue")
 				// R3
-				okAllow := allow != nil && g.GuardedBy(l, func(cond ast.Expr, truth bool) bool {
-					c2, ok := ast.Unparen(cond).(*ast.CallExpr)
-					return ok && an.Callee(info, c2) == allow && truth
-				}, nil)
 				r.Check(okAllow, "C30.R3", key+"/gated-by-backoff.Allow", c.Pos(), "the push is gated by backoff.Allow", "an item can be pushed without consulting its failure backoff")
 				isSeqInc := func(k an.Loc) bool {
 					inc, ok := g.Node(k).(*ast.IncDecStmt)
@@ -328,7 +366,7 @@ func c30(p *an.Prog, r *an.R, tier string) {
 		}
 	}
 	r.Floor("C30.R2.heap-fix-remove-sites", 4, nHeapOps)
-	r.Floor("C30.R3.push-sites", 2, nPush)
+	r.Floor("C30.R3.push-sites", 1, nPush)
 	r.Floor("C30.R6.priority-field-assignments", 4, nPrio)
 	c30PQ(p, r, heapIdx)
 	c30Keys(p, r, items)
